@@ -88,16 +88,8 @@ KW = dict(sched_gen='props.c01:gen_inorder', describe=True, notif_oracle=True, m
 
 def run(ctx):
     results = []
-    res, failures, hist, err = c06._scenario_worker((ctx.prop, ctx.tier, ctx.seed, True))  # noqa: SLF001
-    if err:
-        raise RuntimeError('scenarios failed: ' + err)
-    results += res
-    for f in failures:
-        ctx.fail(f['signature'], f['detail'], f['case'])
-        ctx.hist['oracle-failure:' + f['signature']] -= 1
-    for k, v in hist.items():
-        ctx.count(k, v)
-    results += c06.run_cases(ctx, 'c01', ctx.n(15, 480), ctx.n(2, 4), n_tx=(5, 12), **KW)
+    results += c06.run_cases(ctx, 'c01', ctx.n(15, 480), ctx.n(2, 4), n_tx=(5, 12),
+                             scenario_sets=('main', 'two_mds', 'burst'), **KW)
     for r in results:
         if r.case.get('describe'):
             ctx.count('transactions-checked-against-reportsDescribe', len(r.lines))
